@@ -157,6 +157,12 @@ def s01_iterator_discipline(ctx):
                     r.inst(key)
                     for pf in all_path_facts(b):
                         if pf.returns and _self_field(pf.ret) != rfield:
+                            rt = _strip(pf.ret) if pf.ret else ('?',)
+                            if rt[0] == 'call' and (rt[4].endswith('ExactSizeIterator::len') or rt[4].endswith('::size_hint')) and rt[2] and \
+                                    _strip(rt[2][0])[0] == 'arg' and _strip(rt[2][0])[1] == 1:
+                                continue        # answers through len()/size_hint() of the same iterator, which this rule checks itself
+                            if rt[0] == 'field' and str(rt[2]) == '0' and _strip(rt[1])[0] == 'call' and _strip(rt[1])[4].endswith('::size_hint'):
+                                continue
                             r.violate(key + '|differs-from-size_hint', '%s::%s returns %s, size_hint reports `%s`' % (short, name, tree_str(pf.ret)[:60], rfield), b.file, b.line)
     r.floor('window iterators', 2, n)
     r.info['other_exact_size_iterators_listed_only'] = info_only
@@ -456,6 +462,26 @@ def s03_sibling_constructors(ctx):
                 bb = _canon(fields['buf'])
                 if not (ls[0] == 'call' and ls[1].endswith('::len') and _canon(ls[2][0]) == bb or any(isinstance(x, tuple) and x and x[0] == 'call' and x[1].endswith('::len') for x in walk_tree(S))):
                     r.violate(key + '|size-not-len', 'Window::%s takes a buffer but size (%s) is not its length' % (name, tree_str(S)[:50]), b.file, line)
+            if name == 'from_parts':
+                # (buffer, index of the oldest) is taken as given: the logical sequence the caller described must be the one the window holds
+                PERMUTING = ('rotate_left', 'rotate_right', 'reverse', 'swap', 'fill', 'fill_with', 'copy_within', 'copy_from_slice', 'clone_from_slice',
+                             'swap_with_slice', 'sort', 'sort_by', 'sort_unstable', 'sort_unstable_by', 'sort_by_key', 'iter_mut', 'split_at_mut', 'as_mut_ptr')
+                perm = [(bi, t) for bi, t in b.calls() if (t['callee'].get('name') or '') in PERMUTING]
+                r.inst(key + '|representation')
+                ci = _canon(fields['index'])
+                rotated_ok = False
+                if len(perm) == 1 and perm[0][1]['callee']['name'] == 'rotate_left' and len(perm[0][1]['args']) == 2:
+                    amount = _canon(b.tree_of_operand(perm[0][1]['args'][1]))
+                    if amount == ('arg', 2) and ci[0] == 'const' and ci[2] == 0:
+                        rotated_ok = True       # normalised layout: the oldest element moved to slot 0, cursor 0
+                if perm and not rotated_ok:
+                    bi, t = perm[0]
+                    r.violate(key + '|buffer-permuted|' + t['callee']['name'], 'Window::from_parts rearranges the buffer it is given (`%s`) and stores cursor %s: the window no longer '
+                              'denotes the sequence described by (slice, index of the oldest element)' % (t['callee']['name'], tree_str(fields['index'])[:30]), b.file, b.term_line(bi))
+                elif not perm and ci != ('arg', 2):
+                    r.violate(key + '|cursor-not-index', 'Window::from_parts stores cursor %s instead of the index of the oldest element it is given' % tree_str(fields['index'])[:40], b.file, line)
+                elif not any(x == ('arg', 1) for x in walk_tree(_canon(fields['buf']))) and not perm:
+                    r.violate(key + '|buffer-not-slice', 'Window::from_parts does not store the slice it is given', b.file, line)
             r.sample({'constructor': 'Window::' + name, 'size': tree_str(S)[:40], 's_1': tree_str(fields['s_1'])[:50]})
     r.floor('Window literals', 3, nlit)
     # ---- SMM: half, half_m1 as functions of the window length; slice sorted
